@@ -12,9 +12,11 @@ Per base, `_can_assign_to_base` (line 1572) dispatches on the base value:
 * a `property` → `_can_assign_to_base_property` (line 1589): a settable (deletable) base property
   needs a settable child; the getter types are compared covariantly, and invariantly when the base
   property is settable;
-* anything callable → `_can_assign_to_base_callable` (line 1623): both signatures go through
-  `Signature.bind_self` (signature.py:1968) — **whether or not they are staticmethods** — and the
-  bound signatures are compared with `Signature.can_assign` (Core/SigAssign.lean).
+* anything callable → `_can_assign_to_base_callable`: each signature goes through
+  `Signature.bind_self` (signature.py:1968) unless the class binds the name as a `staticmethod`
+  (`_is_staticmethod_of`, since /repo 7244153; before that repair staticmethods lost their first
+  parameter too — class `staticFirst`, now a regression witness), and the resulting signatures are
+  compared with `Signature.can_assign` (Core/SigAssign.lean).
 
 The MRO is modelled by C3 linearisation (`c3Mros`), validated against CPython's `__mro__` by the
 harness; the verdict itself only depends on the *set* of ancestors.
@@ -37,26 +39,27 @@ def bindSelf {τ} (s : TSig τ) : Option (TSig τ) :=
     | .posOrKw => some ⟨ps, s.ret⟩
     | _ => none
 
-/-- `_can_assign_to_base_callable` on two plain `Signature`s. -/
-def callableOk {τ} (R : TyRel τ) (base child : TSig τ) : Bool :=
-  match bindSelf base with
+/-- `_can_assign_to_base_callable` on two plain `Signature`s; `bs` / `cs` = the base / child class
+binds the name as a staticmethod (`base_is_static`, `child_is_static`). -/
+def callableOk {τ} (R : TyRel τ) (bs : Bool) (base : TSig τ) (cs : Bool) (child : TSig τ) : Bool :=
+  match (if bs then some base else bindSelf base) with
   | none => true                               -- `base_bound is None` → `{}`
   | some b =>
-    match bindSelf child with
+    match (if cs then some child else bindSelf child) with
     | none => false                            -- "… is missing a 'self' argument"
     | some c => sigCanAssign R b c
 
-/-- What a class body binds under the name being checked. `fn raw`: a function or staticmethod
-with the signature `raw` as `signature_from_value` sees it (for a method: including `self`);
-`prop ty settable`: a property with getter type `ty`. -/
+/-- What a class body binds under the name being checked. `fn static raw`: a function
+(`static` = wrapped in `staticmethod`) with the signature `raw` as `signature_from_value` sees it
+(for a method: including `self`); `prop ty settable`: a property with getter type `ty`. -/
 inductive Member (τ : Type) where
-  | fn (raw : TSig τ)
+  | fn (static : Bool) (raw : TSig τ)
   | prop (ty : τ) (settable : Bool)
   deriving Repr, Inhabited
 
 /-- `_can_assign_to_base(base_value, child_value, …)` is not a `CanAssignError`. -/
 def memberOk {τ} (R : TyRel τ) : Member τ → Member τ → Bool
-  | .fn b, .fn c => callableOk R b c
+  | .fn bs b, .fn cs c => callableOk R bs b cs c
   | .prop bt bs, .prop ct cs => (!bs || cs) && R.asg bt ct && (!bs || R.asg ct bt)
   | _, _ => false
 
